@@ -138,6 +138,8 @@ def _truth(v):
 def _cmp(op, a, b):
     if a is UNK or b is UNK:
         return UNK
+    if isinstance(op, (ast.Is, ast.IsNot)) and (a is None or b is None) and (isinstance(a, Len) or isinstance(b, Len)):
+        return isinstance(op, ast.IsNot)        # a list (of whatever length) is not None
     if isinstance(a, Len) or isinstance(b, Len):
         # `xs == []` / `xs != []` for a list of known length: decidable when the lengths differ, or both are empty
         la = a.n if isinstance(a, Len) else (len(a) if isinstance(a, list) else None)
@@ -173,6 +175,15 @@ def _cmp(op, a, b):
     return UNK
 
 
+_COPIES = ("list", "tuple", "sorted")      # builtins that return a sequence with as many elements as their argument
+
+
+def _through_copies(e: ast.AST) -> ast.AST:
+    while isinstance(e, ast.Call) and isinstance(e.func, ast.Name) and e.func.id in _COPIES and len(e.args) == 1 and not e.keywords:
+        e = e.args[0]
+    return e
+
+
 def ev(e: ast.AST, env: dict):
     """Value of `e` under `env` (name -> python value | Len), or UNK."""
     if isinstance(e, ast.Constant):
@@ -205,6 +216,14 @@ def ev(e: ast.AST, env: dict):
         if any(t is True for t in ts):
             return True
         return False if all(t is False for t in ts) else UNK
+    if isinstance(e, ast.Call) and isinstance(e.func, ast.Name) and e.func.id in _COPIES and len(e.args) == 1 \
+            and not any(k.arg != "key" and k.arg != "reverse" for k in e.keywords):
+        v = ev(e.args[0], env)          # a copy has the length of the original
+        if isinstance(v, Len):
+            return v
+        if isinstance(v, (list, tuple)):
+            return list(v) if e.func.id != "tuple" else tuple(v)
+        return UNK
     if isinstance(e, ast.Call) and isinstance(e.func, ast.Name) and e.func.id == "len" and len(e.args) == 1 and not e.keywords:
         v = ev(e.args[0], env)
         if isinstance(v, Len):
@@ -525,6 +544,21 @@ def _context_call_sites(ctx, f, contexts, depth=0, _seen=None) -> list:
         else:
             out += [(h, c2) for h, c2 in _context_call_sites(ctx, g, contexts, depth + 1, _seen)]
     return out
+
+
+def _in_raise(node: ast.AST) -> bool:
+    return any(isinstance(a, ast.Raise) for a in ancestors(node))
+
+
+def _only_while_raising(ctx, f, depth=0) -> bool:
+    """The private helper `f` runs only while an exception is being raised: every call of it sits inside a `raise` statement
+    (`raise X(self._message(...))`) or in another such helper.  Whatever it looks up or swallows, its caller raises."""
+    if not _is_private(f) or depth > 3:
+        return False
+    sites = [(g, c) for g, c in ctx.cg.call_sites_of(f) if g != f]
+    if not sites:
+        return False
+    return all(_in_raise(c) or _only_while_raising(ctx, g, depth + 1) for g, c in sites)
 
 
 def _only_called_from(ctx, f, contexts, depth=0) -> set:
@@ -1686,8 +1720,10 @@ def _result_position(value: ast.AST, is_result: Callable) -> Optional[tuple]:
 
 def _bound_name(rid, g, st, call, pos: tuple) -> str:
     """Local of `g` that receives position `pos` of the value returned by `call` in statement `st`."""
-    if isinstance(st, ast.Assign) and st.value is call and len(st.targets) == 1:
+    if isinstance(st, ast.Assign) and _through_copies(st.value) is call and len(st.targets) == 1:
         t = st.targets[0]
+        if st.value is not call and pos != ():
+            t = None
         if pos == () and isinstance(t, ast.Name):
             return t.id
         if len(pos) == 1 and isinstance(t, (ast.Tuple, ast.List)) and len(t.elts) > pos[0] \
@@ -1786,6 +1822,10 @@ def r4_empty_selection_reported(ctx, rid):
             continue
         if f.qualname in R4_QUERIES:
             ctx.info(rid, f, stmt_of(ctx.cfg(f), call), f"query: {R4_QUERIES[f.qualname]}")
+            continue
+        if _in_raise(call) or _only_while_raising(ctx, f):
+            ctx.info(rid, f, stmt_of(ctx.cfg(f), call), "look-up made while composing the message of an exception that is raised "
+                                                        "regardless of its result: nothing can be silently dropped here")
             continue
         qs = _only_called_from(ctx, f, R4_QUERIES)
         if qs:
@@ -1939,6 +1979,11 @@ def r5_raised_not_built(ctx, rid):
                         for b in h.body for x in ast.walk(b))
                 if reports:
                     ctx.ok(rid, f, tr.body[0], "broad handler re-raises or reports", label=f"broad handler around {norm(tr.body[0], 100)}", nontrivial=False)
+                    continue
+                if _only_while_raising(ctx, f):
+                    ctx.info(rid, f, tr.body[0], f"broad silent handler in {f.qualname}, which only runs while its caller raises an exception "
+                                                 f"(every call sits in a `raise` statement): a failure swallowed here cannot turn the refusal "
+                                                 f"into a normal continuation")
                     continue
                 own, sw = swallowed(f, tr.body)
                 key = frozen_site(f, own)
